@@ -86,7 +86,7 @@ class Reductions(Contract):
     name = 'functions:reductions'
     layer = 5
     uses = tuple(u for u in LOWER if u != 'utils:clip')     # functions.clip calls utils.clip with float bounds: real body
-    props = {'*': ['C15'], 'in_range': ['C15', 'C02'], 'operand_unchanged': ['C20'], 'separate_state': ['C20']}
+    props = {'*': ['C15'], 'in_range': ['C15', 'C02'], 'operand_unchanged': ['C20'], 'separate_state': ['C20'], 'inaccuracy_propagates': ['C04']}
 
     def configs(self, tier):
         if tier == 'quick':
@@ -117,6 +117,9 @@ class Reductions(Contract):
                             yield dict(fn=fn, fmt=list(fm), shape=list(shape), axis=axis, route=route)
                         if fm[2] <= 0 and axis is None and len(shape) == 1:
                             yield dict(fn=fn, fmt=list(fm), shape=list(shape), axis=axis, route='np', vint=True)      # integer-typed array (vdtype int)
+        for fm in fms[:2]:
+            for fn in ('sum', 'max'):
+                yield dict(fn=fn, fmt=list(fm), shape=[2], axis=None, route='np', with_out=True)
         # a bound that is exactly zero (and integer bounds) on either side
         for fm in fms[:3]:
             for bounds in ([0, 1.5], [-0.75, 0], [0, 0], [-1, 1]):
@@ -132,7 +135,7 @@ class Reductions(Contract):
 
     def inputs(self, cfg, D):
         s, n, f = cfg['fmt']
-        d = {'c': codes_in(D, 'c', nelem(cfg['shape']), s, n)}
+        d = {'c': codes_in(D, 'c', nelem(cfg['shape']), s, n), 'ix': D.bool('inacc_x')}
         if cfg['fn'] == 'dot':
             s2, n2, f2 = cfg['fmt_y']
             d['cy'] = codes_in(D, 'cy', nelem(cfg['shape_y']), s2, n2)
@@ -140,7 +143,7 @@ class Reductions(Contract):
 
     def run(self, cfg, P, inp):
         s, n, f = cfg['fmt']
-        x = make_fxp(P, s, n, f, codes=inp['c'], shape=tuple(cfg['shape']), vdtype=int if cfg.get('vint') else float)
+        x = make_fxp(P, s, n, f, codes=inp['c'], shape=tuple(cfg['shape']), vdtype=int if cfg.get('vint') else float, status={'inaccuracy': inp['ix']})
         b = dict(x.__dict__); v0 = list(elems(x.val))
         fn, axis, route = cfg['fn'], cfg['axis'], cfg['route']
         np = P.np
@@ -149,7 +152,12 @@ class Reductions(Contract):
             y = make_fxp(P, s2, n2, f2, codes=inp['cy'], shape=tuple(cfg['shape_y']), vdtype=float)
             z = np.dot(x, y) if route == 'np' else x.dot(y)
         elif fn in ('sum', 'cumsum', 'prod', 'cumprod', 'max', 'min'):
-            z = getattr(np, fn)(x, axis=axis) if route == 'np' else getattr(x, fn)(axis=axis)
+            if cfg.get('with_out'):
+                # out= object wide enough to hold the result exactly: the result is that object and carries the operand's inaccuracy flag
+                zo = make_fxp(P, True, 40, max(f, 0) + 2, codes=[0], shape=(), vdtype=float)
+                z = getattr(np, fn)(x, axis=axis, out=zo)
+            else:
+                z = getattr(np, fn)(x, axis=axis) if route == 'np' else getattr(x, fn)(axis=axis)
         elif fn == 'sort':
             if route == 'np':
                 z = np.sort(x, axis=axis)
@@ -254,6 +262,7 @@ class Reductions(Contract):
             out['in_range[%d]' % i] = And(g >= lo, g <= hi)
         st = obs['status']
         out['no_overflow'] = And(Not(B(st['overflow'])), Not(B(st['underflow'])))
+        out['inaccuracy_propagates'] = Implies(B(inp['ix']), B(st['inaccuracy']))
         return out
 
 
